@@ -4,4 +4,4 @@ cd "$(dirname "$0")" || exit 2
 export GOFLAGS=-mod=mod GOPROXY=off GOTOOLCHAIN=local
 unset GOSUMDB
 mkdir -p bin evidence replay
-go1.26.8 build -o bin/gosmt ./cmd/gosmt
+go1.26.8 build -o bin/gosmt.tmp.$$ ./cmd/gosmt && mv -f bin/gosmt.tmp.$$ bin/gosmt
